@@ -37,11 +37,15 @@ def somes(ev):
 # difference, the sum of the two middle elements of a median) exceeds the float range: there numpy/Python produce inf
 # (and inf/inf = nan) although inputs and the documented change are finite.  An ANSWER disagreement on such a case is
 # reported under the key of the recorded known finding OVERFLOW_KEY (the driver prints KNOWN-FINDING); it is kept away
-# from the Coq model (exact rationals: the double range is not modelled).  An exception on such inputs, and any answer
+# from the Coq model (exact rationals: the double range is not modelled).  The same holds for the UNDERFLOW sibling
+# (UNDERFLOW_KEY): an exact mean of two middle values that is non-zero but below the double range.  An exception on such inputs, and any answer
 # disagreement without an out-of-range exact intermediate, keep their ordinary keys and are violations.
 FLOAT_MAX = Fraction(sys.float_info.max)
 OVERFLOW_KEY = "answer-intermediate-overflow-beyond-double-range"  # known finding (known_findings.txt)
+UNDERFLOW_KEY = "answer-intermediate-underflow-below-double-range"  # known finding (known_findings.txt)
+SUBNORMAL_UNIT = Fraction(1, 2**1074)  # smallest positive double; below 2^-1022 doubles are multiples of it
 _RISK = [False]
+_UNDER = [False]  # an exact intermediate is non-zero but not a double: below the normal range, lost in (a+b)/2 (e.g. -> 0.0)
 
 
 def _chk(x):
@@ -55,7 +59,12 @@ def median(l):
     n = len(s_)
     if n % 2:
         return s_[n // 2]
-    return _chk(s_[n // 2 - 1] + s_[n // 2]) / 2
+    m = _chk(s_[n // 2 - 1] + s_[n // 2]) / 2
+    # differences and sums of doubles are exact in the subnormal range, halving is not: (0.0 + 5e-324)/2 = 0.0 in double,
+    # the exact mean 2.47e-324 is non-zero (a zero / non-zero reference decides the relative criteria)
+    if m != 0 and abs(m) < Fraction(1, 2**1022) and (m / SUBNORMAL_UNIT).denominator != 1:
+        _UNDER[0] = True
+    return m
 
 
 def near_threshold(q, thr):
@@ -437,13 +446,15 @@ def first_failure_crit(case, impl=None):
         return (f"ctor-{kind}-accepts", f"{KINDS[kind][1]} accepts threshold {case['thr']} / allowed violations {v} against its documented range", 0)
     if malformed(case):
         return None
-    _RISK[0] = False
+    _RISK[0] = _UNDER[0] = False
     spec, near = spec_crit(case)
     if near:
         return "near"
     for i, (a, s) in enumerate(zip(impl, spec)):
         if isinstance(a, tuple):
             return (f"raises-{kind}-{a[1]}", f"{KINDS[kind][1]}.check_termination raised {a[1]} on a finite history (evaluation #{i})", i)
+        if a != s and _UNDER[0] and not _RISK[0]:
+            return (UNDERFLOW_KEY, f"{KINDS[kind][1]} answered {a} at evaluation #{i}; the documented change measure (exact) says {s}; an exact intermediate (mean of a median's two middle values) is non-zero but below the double range (computed as 0.0 / with lost bits)", i)
         if a != s and _RISK[0]:
             return (OVERFLOW_KEY, f"{KINDS[kind][1]} answered {a} at evaluation #{i}; the documented change measure (exact) says {s}; an exact intermediate (middle-pair sum or difference) exceeds the double range", i)
         if a != s:
@@ -544,10 +555,10 @@ def do_case(ctx, case, count=True):
     impl = impl_crit(case) if case["type"] == "crit" else impl_spsa(case)
     f = first_failure(case, impl)
     label = case["kind"] if case["type"] == "crit" else "spsa"
-    if isinstance(f, tuple) and f[0] == OVERFLOW_KEY:
+    if isinstance(f, tuple) and f[0] in (OVERFLOW_KEY, UNDERFLOW_KEY):
         # HEAD answers against the exact magnitude because an intermediate left the double range: recorded known finding;
         # decided by the oracle only, not compared with the (exact-rational) model
-        ctx.tally("known-finding:intermediate-overflow")
+        ctx.tally("known-finding:intermediate-" + ("overflow" if f[0] == OVERFLOW_KEY else "underflow"))
         small = shrink(case, f[0])
         f = first_failure(small) if small != case else f
         ctx.violation("oracle", f[0], f[1], small, detail=dict(original_case=case, implementation=impl_crit(small) if small["type"] == "crit" else impl_spsa(small)))
@@ -643,7 +654,7 @@ def run(ctx):
     # shards of their own (compiled in parallel) and, in the quick tier, only a sample of them is run through the model
     # (the exact-rational oracle above has judged all of them)
     ext = [i for i, c in enumerate(kept) if c.get("family") == "extreme"]
-    ext_run = ext if not ctx.quick else ext[:: max(1, len(ext) // 90)]
+    ext_run = ext[:: max(1, len(ext) // (90 if ctx.quick else 1500))]
     ordinary = [i for i, c in enumerate(kept) if c.get("family") != "extreme"]
     bad = [ordinary[j] for j in core.model_mismatches("C13", IMPORTS, "check_case", [glits[i] for i in ordinary], chunk=250)]
     bad += [ext_run[j] for j in core.model_mismatches("C13_extreme", IMPORTS, "check_case", [glits[i] for i in ext_run], chunk=6)]
